@@ -258,6 +258,14 @@ impl Compiler {
         let result_reg = self.builder.alloc_register()?;
         let elem_value = self.builder.alloc_register()?;
 
+        // Set once next() reports done: later elements are undefined without
+        // further next() calls, and a finished iterator is not closed
+        let done_reg = self.builder.alloc_register()?;
+        self.builder.emit(Op::LoadBool {
+            dst: done_reg,
+            value: false,
+        });
+
         // Track if iterator is exhausted (by rest pattern)
         let mut iterator_exhausted = false;
 
@@ -279,26 +287,14 @@ impl Compiler {
                     break;
                 }
 
-                // Get next iterator value
-                self.builder.emit(Op::IteratorNext {
-                    dst: result_reg,
-                    iterator: iter_reg,
-                });
-
-                // Get the value (or undefined if done)
-                self.builder.emit(Op::IteratorValue {
-                    dst: elem_value,
-                    result: result_reg,
-                });
+                // Get the next value (undefined once the iterator is done)
+                self.compile_array_pattern_step(iter_reg, result_reg, done_reg, Some(elem_value));
 
                 // Bind to the pattern
                 self.compile_pattern_binding(pattern, elem_value, mutable, is_var)?;
             } else {
                 // Hole in array pattern - skip this element
-                self.builder.emit(Op::IteratorNext {
-                    dst: result_reg,
-                    iterator: iter_reg,
-                });
+                self.compile_array_pattern_step(iter_reg, result_reg, done_reg, None);
             }
         }
 
@@ -306,14 +302,58 @@ impl Compiler {
         // Per ES spec, IteratorClose should be called when destructuring
         // completes without exhausting the iterator
         if !iterator_exhausted {
+            let skip_close = self.builder.emit_jump_if_true(done_reg);
             self.builder.emit(Op::IteratorClose { iterator: iter_reg });
+            self.builder.patch_jump(skip_close);
         }
 
+        self.builder.free_register(done_reg);
         self.builder.free_register(elem_value);
         self.builder.free_register(result_reg);
         self.builder.free_register(iter_reg);
 
         Ok(())
+    }
+
+    /// One element position of an array pattern: take the next value from the
+    /// iterator into `value` (or just advance, for a hole). Once next() has
+    /// reported done the iterator is left alone and the value is undefined.
+    fn compile_array_pattern_step(
+        &mut self,
+        iter_reg: Register,
+        result_reg: Register,
+        done_reg: Register,
+        value: Option<Register>,
+    ) {
+        let already_done = self.builder.emit_jump_if_true(done_reg);
+        self.builder.emit(Op::IteratorNext {
+            dst: result_reg,
+            iterator: iter_reg,
+        });
+        let now_done = super::JumpPlaceholder {
+            instruction_index: self.builder.emit(Op::IteratorDone {
+                result: result_reg,
+                target: 0,
+            }),
+        };
+        if let Some(dst) = value {
+            self.builder.emit(Op::IteratorValue {
+                dst,
+                result: result_reg,
+            });
+        }
+        let taken = self.builder.emit_jump();
+
+        self.builder.patch_jump(now_done);
+        self.builder.emit(Op::LoadBool {
+            dst: done_reg,
+            value: true,
+        });
+        self.builder.patch_jump(already_done);
+        if let Some(dst) = value {
+            self.builder.emit(Op::LoadUndefined { dst });
+        }
+        self.builder.patch_jump(taken);
     }
 
     /// Compile a pattern assignment (for assignment expressions)
@@ -517,6 +557,14 @@ impl Compiler {
         let result_reg = self.builder.alloc_register()?;
         let elem_value = self.builder.alloc_register()?;
 
+        // Set once next() reports done: later elements are undefined without
+        // further next() calls, and a finished iterator is not closed
+        let done_reg = self.builder.alloc_register()?;
+        self.builder.emit(Op::LoadBool {
+            dst: done_reg,
+            value: false,
+        });
+
         // Track if iterator is exhausted (by rest pattern)
         let mut iterator_exhausted = false;
 
@@ -535,22 +583,11 @@ impl Compiler {
                     break;
                 }
 
-                self.builder.emit(Op::IteratorNext {
-                    dst: result_reg,
-                    iterator: iter_reg,
-                });
-
-                self.builder.emit(Op::IteratorValue {
-                    dst: elem_value,
-                    result: result_reg,
-                });
+                self.compile_array_pattern_step(iter_reg, result_reg, done_reg, Some(elem_value));
 
                 self.compile_pattern_assignment(pattern, elem_value)?;
             } else {
-                self.builder.emit(Op::IteratorNext {
-                    dst: result_reg,
-                    iterator: iter_reg,
-                });
+                self.compile_array_pattern_step(iter_reg, result_reg, done_reg, None);
             }
         }
 
@@ -558,9 +595,12 @@ impl Compiler {
         // Per ES spec, IteratorClose should be called when destructuring
         // completes without exhausting the iterator
         if !iterator_exhausted {
+            let skip_close = self.builder.emit_jump_if_true(done_reg);
             self.builder.emit(Op::IteratorClose { iterator: iter_reg });
+            self.builder.patch_jump(skip_close);
         }
 
+        self.builder.free_register(done_reg);
         self.builder.free_register(elem_value);
         self.builder.free_register(result_reg);
         self.builder.free_register(iter_reg);
